@@ -101,6 +101,22 @@ static void one_level(Rng& rng, const Level& lev, const Problem& pb, bool dirbc,
             std::printf("PROP direct-give-eq-take trial=%d reldiff=%.3e => %s\n", trial, diff / std::max(vmax(x), 1e-300),
                         diff <= 1e-8 * std::max(vmax(x), 1e-300) ? "ok" : "FAIL the two strategies' direct solvers return different solutions");
         }
+        // "for any right-hand side": the solve is linear, and scaling by a power of two commutes with every rounding (no under- or
+        // overflow here), so solve(2^e b) must be 2^e solve(b) bit for bit -- for tiny and for huge right-hand sides
+        if (trial == 0) {
+            for (int e : {-70, -40, 60}) {
+                for (int which = 0; which < (dt ? 2 : 1); which++) {
+                    Vector<double> bs(n), xs(n), x0 = b;
+                    for (int i = 0; i < n; i++) bs[i] = std::ldexp(b[i], e);
+                    xs = bs;
+                    if (which == 0) { dg.solveInPlace(xs); dg.solveInPlace(x0); } else { dt->solveInPlace(xs); dt->solveInPlace(x0); }
+                    bool same = true;
+                    for (int i = 0; i < n; i++) same = same && xs[i] == std::ldexp(x0[i], e);
+                    std::printf("PROP direct-solve-scaling %s exponent=%d => %s\n", which ? "take" : "give", e,
+                                same ? "ok" : "FAIL solve(2^e b) differs from 2^e solve(b): the solve treats small or large right-hand sides differently");
+                }
+            }
+        }
     }
 }
 
@@ -155,6 +171,38 @@ int main(int argc, char** argv) {
             std::string m = e.what(); std::replace(m.begin(), m.end(), '\n', ' ');
             std::printf("# rejected: %s\n", m.c_str());
         }
+    }
+    if (!direct) {
+        // ---- coarse caches for EVERY relation between the fine and the coarse circle / radial split (the coarse split is recomputed
+        //      automatically on each level): fine split index 0 .. nr, several sizes; caches on; compared bitwise with a fresh evaluation ----
+        for (int nr : {9, 11, 13, 17})
+            for (int nth : {8, 16, 24}) {
+                std::vector<double> radii, angles;
+                double Rmax = 1.3;
+                random_grid(rng, nr, nth, false, radii, angles, Rmax);
+                Problem pb = make_problem(rng, Rmax, (nr + nth) % 4, -1);
+                for (int sidx = -1; sidx <= nr; sidx++) {
+                    std::optional<double> split;
+                    if (sidx >= 0) split = sidx < nr ? radii[sidx] : 2 * radii[nr - 1];
+                    try {
+                        auto lev0 = make_level(0, std::make_unique<PolarGrid>(radii, angles, split), pb, true, true);
+                        auto cgrid = std::make_unique<PolarGrid>(coarseningGrid(lev0->grid()));
+                        LevelCache ccache(*lev0, *cgrid);
+                        LevelCache fresh(*cgrid, *pb.coef, *pb.geom, true, true);
+                        bool same = true;
+                        for (int i = 0; i < cgrid->nr(); i++) for (int j = 0; j < cgrid->ntheta(); j++) {
+                            double st, ct, b, a1, a2, a3, d, st2, ct2, b2, e1, e2, e3, d2;
+                            ccache.obtainValues(i, j, cgrid->index(i, j), cgrid->radius(i), cgrid->theta(j), st, ct, b, a1, a2, a3, d);
+                            fresh.obtainValues(i, j, cgrid->index(i, j), cgrid->radius(i), cgrid->theta(j), st2, ct2, b2, e1, e2, e3, d2);
+                            same = same && st == st2 && ct == ct2 && b == b2 && a1 == e1 && a2 == e2 && a3 == e3 && d == d2;
+                        }
+                        std::printf("# level sweep nr=%d ntheta=%d nsc=%d dirbc=0 fine_split_index=%d coarse_nsc=%d geom=%s coef=%s\n", nr, nth,
+                                    lev0->grid().numberSmootherCircles(), sidx, cgrid->numberSmootherCircles(), pb.geom_name.c_str(), pb.coef_name.c_str());
+                        std::printf("PROP coarse-cache-equals-fresh-evaluation fine_nsc=%d coarse_nsc=%d => %s\n", lev0->grid().numberSmootherCircles(),
+                                    cgrid->numberSmootherCircles(), same ? "ok" : "FAIL coarse-level cache differs from evaluating the coefficients at the coarse nodes");
+                    } catch (const std::exception& e) {}
+                }
+            }
     }
     return 0;
 }
